@@ -870,6 +870,20 @@ pub fn run(ctx: &Ctx) -> Result<Report, String> {
         }
     }
 
+    // ---- logging switched on: the shared families once more on this thread under a subscriber that formats every
+    // log line of the handler
+    crate::engine::logging::with_logging(|| {
+        for fam in ["columns", "shapes"] {
+            let mut handler = SixelImageHandler::new(None);
+            for (i, case) in shared_family(fam).iter().enumerate() {
+                let o = check(case, &mut handler);
+                shared_images += 1;
+                for f in &o.findings {
+                    viol.add(format!("logging:{}", f.key), format!("with a tracing subscriber listening: {} [family {fam}, image #{i}]", f.what), json!({"sub": "shared", "family": fam, "index": i, "logging": true}));
+                }
+            }
+        }
+    });
     let mut r = Report::new("exploration");
     r.set("evaluations", tally.evaluations.load(Ordering::Relaxed))
         .set("distinct_nontrivial", tally.distinct())
@@ -902,6 +916,11 @@ pub fn run(ctx: &Ctx) -> Result<Report, String> {
 }
 
 pub fn replay(w: &Value) -> Result<(bool, String), String> {
+    if w["logging"] == json!(true) {
+        let mut w2 = w.clone();
+        w2["logging"] = json!(false);
+        return crate::engine::logging::with_logging(|| replay(&w2));
+    }
     let mut text = String::new();
     let o = if w["sub"] == json!("shared") {
         let fam = w["family"].as_str().ok_or("family")?;
